@@ -34,11 +34,14 @@ def fault_sets(n, pairs):
     return out
 
 
-def plan(prog, faults, sname, driver, end):
+def plan(prog, faults, sname, driver, end, switch=None):
     """reference lockstep: list of pieces with expectations; under PAUSE a
     run piece that stopped after a failing event is re-issued"""
     pause = sname == "WARN_AND_PAUSE"
     ref = progmc.RefSim(prog, end=end, faults=faults, pause_on_fault=pause)
+    # handlers that change the error strategy while the run is in progress
+    ref.switch = {t: (s_ == "WARN_AND_PAUSE")
+                  for t, s_ in (switch or {}).items()}
     pieces, exps = [], []
 
     def run_piece(piece):
@@ -62,10 +65,7 @@ def plan(prog, faults, sname, driver, end):
             if nxt is None or nxt[0] > end:
                 break
             # a step never pauses: the failure is contained in step()
-            save = ref.pause_on_fault
-            ref.pause_on_fault = False
             e = ref.cmd(("step",))
-            ref.pause_on_fault = save
             pieces.append(("step",))
             exps.append(e)
         run_piece(("start",))
@@ -94,8 +94,9 @@ def compare(obs, exps):
 
 
 def judge(case):
-    prog, clock, faults, sname, driver, raw, end = case
-    pieces, exps = plan(prog, faults, sname, driver, end)
+    prog, clock, faults, sname, driver, raw, end = case[:7]
+    switch = case[7] if len(case) > 7 else {}
+    pieces, exps = plan(prog, faults, sname, driver, end, switch)
     strat = strategies()[sname]
     # every other case selects the strategy together with an explicit log
     # level (the two-argument form of set_error_strategy)
@@ -105,8 +106,9 @@ def judge(case):
     with common.quiet_stdio():
         try:
             r = progmc.run_pieces(prog, clock, pieces, faults=faults,
-                                  strategy=strat, raw=raw,
-                                  end=end)
+                                  strategy=strat, raw=raw, end=end,
+                                  switch={t: strategies()[s_]
+                                          for t, s_ in switch.items()})
         except common.HarnessError:
             raise
         except Exception as ex:  # noqa
@@ -117,8 +119,10 @@ def judge(case):
 
 
 def case_json(case):
-    prog, clock, faults, sname, driver, raw, end = case
-    return {"program": progmc.prog_to_json(prog), "clock": clock,
+    prog, clock, faults, sname, driver, raw, end = case[:7]
+    return {"switch": {str(k): v for k, v in (case[7] if len(case) > 7
+                                              else {}).items()},
+            "program": progmc.prog_to_json(prog), "clock": clock,
             "faults": {str(k): v for k, v in faults.items()},
             "strategy": sname, "driver": driver, "raw": sorted(raw),
             "end": end}
@@ -127,7 +131,8 @@ def case_json(case):
 def case_from_json(j):
     return (progmc.prog_from_json(j["program"]), j["clock"],
             {int(k): v for k, v in j["faults"].items()}, j["strategy"],
-            j["driver"], set(j["raw"]), j["end"])
+            j["driver"], set(j["raw"]), j["end"],
+            {int(k): v for k, v in j.get("switch", {}).items()})
 
 
 def worker(task):
@@ -161,10 +166,25 @@ def worker(task):
                                 if sample is None and k == N and \
                                         len(faults) == 2:
                                     sample = case_json(case)
-                                for b in bad[:1]:
-                                    sig = "C05:%s:%s:%s%s" % (
+                                bads = [(bad, case, "")]
+                                if len(faults) == 1 and not rawmode and \
+                                        clock == clocks[0] and \
+                                        sname != "WARN_AND_CONTINUE":
+                                    # one handler switches the strategy
+                                    # between continue and pause mid-run
+                                    other = "WARN_AND_PAUSE" if sname == \
+                                        "LOG_AND_CONTINUE" else \
+                                        "LOG_AND_CONTINUE"
+                                    for t in range(k):
+                                        c2 = case + ({t: other},)
+                                        n += 1
+                                        bads.append((judge(c2), c2,
+                                                     ":switched"))
+                                for bad, case, tagx in bads:
+                                  for b in bad[:1]:
+                                    sig = "C05:%s:%s:%s%s%s" % (
                                         sname, driver, b[0],
-                                        ":raw" if raw else "")
+                                        ":raw" if raw else "", tagx)
                                     cnt[sig] = cnt.get(sig, 0) + 1
                                     rank = k * 10 + len(faults)
                                     if sig not in best or rank < best[sig][3]:
